@@ -4,6 +4,8 @@
    of the exception. *)
 From Coq Require Import List.
 From Tawazi Require Import Graph Sched SchedInv SchedPrio.
+From Tawazi Require Reconf ReconfFacts.
+From Coq Require Import ZArith.
 Import ListNotations.
 
 (* every blocking wait is justified (max_concurrency nodes in flight, or nothing ready, or a sequential
@@ -30,3 +32,9 @@ Theorem C08_block_only_when_justified_refuted :
     inflight s k <> [] /\ justified c s = false.
 Proof. exact block_only_when_justified_refuted. Qed.
 Print Assumptions C08_block_only_when_justified_refuted.
+
+(* the limit the scheduler must use: unchanged by reconfigurations that do not name max_concurrency *)
+Theorem C08_reconfiguration_without_limit_keeps_it (nodes : list nat) (tagged : nat -> list nat) (cs : list Reconf.cstep) (st : Reconf.cstate) :
+  (forall c, In c cs -> Reconf.c_max c = None) -> Reconf.s_maxc (Reconf.run nodes tagged st cs) = Reconf.s_maxc st.
+Proof. exact (ReconfFacts.run_no_max nodes tagged cs st). Qed.
+Print Assumptions C08_reconfiguration_without_limit_keeps_it.
